@@ -3,4 +3,6 @@ From Common Require Import Words.
 From Coq Require Import ZArith.
 From Hash Require Import HashBase HashSpec HashModel.
 Extraction Language OCaml.
-Extraction "model.ml" anchor step spec_step init new_table m_obs s_obs hash_int hash_ptr hash_str bytes_eqb Z.eqb bidx.
+Extraction "model.ml" anchor step spec_step init new_table m_obs s_obs hash_int hash_ptr hash_str bytes_eqb Z.eqb bidx
+  hash_int8 hash_uint8 hash_int16 hash_uint16 hash_int32 hash_uint32 hash_int64 hash_uint64
+  wrap_int8 wrap_uint8 wrap_int16 wrap_uint16 wrap_int32 wrap_uint32 wrap_int64 wrap_uint64 Z.add Z.mul.
